@@ -81,6 +81,9 @@ func c06Meta(kind string) string {
 type c06Gen struct {
 	r *vh.Rand
 	n int
+	// r2 decides the look-alike members below: a stream of its own, so that the messages of a case are otherwise
+	// what they were before that dimension existed
+	r2 *vh.Rand
 }
 
 func (g *c06Gen) msg(sym, method, params, meta string, notif bool) c06Msg {
@@ -102,10 +105,10 @@ func (g *c06Gen) msg(sym, method, params, meta string, notif bool) c06Msg {
 			p = "{" + m + "," + p[1:]
 		}
 	}
-	if meta == "" && strings.HasPrefix(p, "{") && g.r.Chance(1, 6) {
+	if meta == "" && strings.HasPrefix(p, "{") && g.r2 != nil && g.r2.Chance(1, 6) {
 		// a member that merely looks like _meta (member names are case-sensitive): complete metadata in it mean nothing,
 		// the message is a plain legacy one
-		m := `"` + g.r.Choose("_Meta", "_META", "_mEtA", "_meta ") + `":` + c06Meta("full")
+		m := `"` + g.r2.Choose("_Meta", "_META", "_mEtA", "_meta ") + `":` + c06Meta("full")
 		if p == "{}" {
 			p = "{" + m + "}"
 		} else {
@@ -204,12 +207,12 @@ func (g *c06Gen) next(httpOnly bool) c06Msg {
 	}
 }
 
-func genC06(r *vh.Rand) c06Spec {
+func genC06(r *vh.Rand, idx int) c06Spec {
 	s := c06Spec{Transport: "stdio"}
 	if r.Chance(1, 4) {
 		s.Transport = "http-stateless"
 	}
-	g := &c06Gen{r: r}
+	g := &c06Gen{r: r, r2: vh.NewRand(vh.Seed()^0x5eed06, uint64(idx))}
 	if r.Chance(1, 7) {
 		// a stateful endpoint cannot serve 2026-07-28: metadata-carrying requests, whatever the header says
 		s.Transport = "http-stateful"
@@ -243,7 +246,7 @@ func TestVerifC06(t *testing.T) {
 			"the error code of a pre-initialize rejection is not fixed by the statement; any error response counts"},
 	}
 	vh.Run(t, cfg, func(c *vh.Case) {
-		spec := genC06(c.R)
+		spec := genC06(c.R, c.Index)
 		c.SetSpec(spec)
 		c.Bubble("", func() { runC06(c, spec) })
 	})
